@@ -110,6 +110,33 @@ def shared_container_census(ctx: Ctx, rid: str, reach, floor: int = 8):
                       (kind_ == "mod" and t == name and not any(isinstance(y, ast.Assign) and any(norm(z) == name for z in y.targets)
                                                                  for y in own_nodes(fn)))
                 if hit:
+                    # a sound memo of a pure function is history-independent: the key holds every parameter the value was computed
+                    # from (spverif/memo.py) and the value depends on nothing but the parameters
+                    from ..memo import memo_findings
+                    pure = False
+                    if isinstance(fn.node, (ast.FunctionDef, ast.AsyncFunctionDef)) and not any(c_ == norm(base) for (c_, _k, _p, _s) in memo_findings(fn.node)):
+                        vals = []
+                        if isinstance(x, ast.Assign) and isinstance(x.targets[0], ast.Subscript):
+                            vals = [x.value]
+                        elif isinstance(x, ast.Call) and x.func.attr == "setdefault" and len(x.args) == 2:
+                            vals = [x.args[1]]
+                        if vals:
+                            atoms = set()
+                            for v_ in vals:
+                                atoms |= full(ctx.dep.of(fn).deps_of(v_))
+                            shared_names = {k[2] for k in shared}
+                            if not hasattr(ctx, "_repo_fields"):
+                                ctx._repo_fields = {t.attr for f_ in repo.all_funcs() for y in own_nodes(f_)
+                                                    if isinstance(y, (ast.Assign, ast.AugAssign, ast.AnnAssign))
+                                                    for t in (y.targets if isinstance(y, ast.Assign) else [y.target])
+                                                    if isinstance(t, ast.Attribute)}
+                            atoms = {a for a in atoms if not (a.startswith("field:") and a.split(":", 1)[1] not in ctx._repo_fields)}
+                            state = {a for a in atoms if (a.split(":")[0] in ("field", "pattr") or
+                                                          (a.split(":")[0] in ("global", "free") and a.split(":", 1)[1] in shared_names))
+                                     and not a.endswith(":" + name)}
+                            pure = not state
+                    if pure:
+                        continue
                     writers.append(f"{fn.qual}:{x.lineno}")
         # an instance attribute of the same name assigned in a method shadows the class-level container
         if kind_ == "cls" and writers:
